@@ -64,6 +64,7 @@ def _pp_eval(expr, defines):
             return w
         return str(defines.get(w, 0))
     e = e.replace('&&', ' and ').replace('||', ' or ')
+    e = re.sub(r'(?<!/)/(?!/)', '//', e)   # integer division
     e = re.sub(r'!(?!=)', ' not ', e)
     e = re.sub(r'\b[A-Za-z_]\w*\b', ident, e)
     try:
